@@ -1129,6 +1129,20 @@ func (x *Exec) bigStub(st *State, f *Frame, in *ssa.Call, fn *ssa.Function, name
 		st.bigv[objOf(args[0])] = v
 		x.ret(f, in, args[0])
 		return true
+	case "(*math/big.Int).SetString":
+		// constants written as strings (typically in package initialisers)
+		str := x.goString(st, args[1])
+		base := x.word(args[2])
+		if !base.IsConst() {
+			x.fail("big.Int.SetString with a symbolic base")
+		}
+		acc, okp := new(big.Int).SetString(str, int(base.Val.Int64()))
+		if !okp || acc.Sign() < 0 || acc.BitLen() > 256 {
+			x.fail("big.Int.SetString outside the 256-bit model")
+		}
+		st.bigv[objOf(args[0])] = d.Const(256, acc)
+		x.ret(f, in, T{args[0], W{d.Bool(true)}})
+		return true
 	case "(*math/big.Int).Exp":
 		r := d.App("modexp", 256, []*Node{val(args[1]), val(args[2]), val(args[3])})
 		st.bigv[objOf(args[0])] = r
